@@ -152,7 +152,7 @@ class World:
         child.at_exit.append(self._on_worker_death)
 
     def on_sig_deliver(self, proc, signum, label):
-        if proc.pid in self.workers and signum in TERMSIGS and label.startswith('write') and \
+        if proc.pid in self.workers and (signum in TERMSIGS or signum == 10) and label.startswith('write') and \
                 self.wire_out.get(proc.pid):
             # unwound in the middle of writing a message to the result pipe
             self.workers[proc.pid]['term_in_write'] = (self.k.steps, label)
@@ -225,6 +225,11 @@ class World:
                                                              dict(kw) if kind == 'to' else None)))
             if kind == 'acc' and self.first_accept_time is None:
                 self.first_accept_time = self.k.now
+            d = self.case.get('cb_delay')
+            if d and kind in ('ok', 'err'):
+                # a slow user callback (it runs in the result handler thread)
+                self.k.fault_fired('slow_callback')
+                self.k.sleep(d)
         return cb
 
     # ------------------------------------------------------------------ stalled caller, line granularity
